@@ -222,7 +222,8 @@ func TestC13(t *testing.T) {
 		f.Refuse(false)
 		for _, p := range problems {
 			if p != "" {
-				t.Fatalf("C13 %s: %s", descr, p)
+				hp := rec.History("TestC13", map[string]interface{}{"case": descr, "problem": p, "plans": plans, "backend_log_len": len(log)})
+				t.Fatalf("C13 %s: %s (saved: %s)", descr, p, hp)
 			}
 		}
 		// acknowledged writes are in the backend
